@@ -23,12 +23,15 @@ TSys == IsEv("Sys") /\ Consume /\ SysChange(Ev.sys)
 TTree == IsEv("Tree") /\ Consume /\ TreeChange(KOf(Ev.K))
 TRefresh == IsEv("Refresh") /\ Consume /\ Refresh
 TEnd == IsEv("SEnd") /\ Consume /\ UNCHANGED svars
+\* a listing of a cgroup's directory that failed half way (an entry vanished between readdir and fstatat) as the LAST
+\* access of a tick: nothing of it is reported, and it leaves no trace in the next tick (whose listing is complete)
+TListFault == IsEv("ListFault") /\ Consume /\ UNCHANGED svars
 TQM == IsEv("QM") /\ Consume /\ QueryMissing(Ev.p)
 \* the observed value: pg_scan_rate may be "not available", every other statistic must be available
 Obs == IF Ev.f = "children" THEN SeqToSet(Ev.r.v) ELSE Ev.r.v
 TQ == IsEv("Q") /\ Consume /\ Query(Ev.p, Ev.f, Ev.r.has, Obs)
 
-TraceNext == TReset \/ TKC \/ TSys \/ TTree \/ TRefresh \/ TEnd \/ TQM \/ TQ
+TraceNext == TListFault \/ TReset \/ TKC \/ TSys \/ TTree \/ TRefresh \/ TEnd \/ TQM \/ TQ
 TraceSpec == TraceInit /\ [][TraceNext]_tvars
 TraceProgress == TLCSet(1, IF TLCGet(1) < l THEN l ELSE TLCGet(1))
 TraceAccepted == /\ PrintT(<<"MAXL", TLCGet(1), "OF", N>>) /\ TLCGet(1) = N + 1
